@@ -452,6 +452,34 @@ theorem pieces_exact_w (d0 : Char) (dr : List Char) (e0 : Char) (er : List Char)
       refine ⟨.text v' :: ps, ?_, ⟨hk, hv'.symm, p5⟩⟩
       simp only [renderAll, Piece.render, bytesOf_append]
 
+/-- the tokens that survive the removal of the ready elements, in order -/
+def survivors (src ds de : List Char) (cfg : Cfg) : List Token :=
+  flattenParts (pruneParts (conditionHolds cfg) (parseSource src ds de))
+
+/-- every byte the ranges cover is a whitespace byte of `K` -/
+def WsOnly (F : List Rng) (K : Bytes) : Prop := ∀ d, inAny F d = true → ∃ y, K[d]? = some y ∧ isWs y = true
+
+/-- what `PExact` says in plain terms: as many pieces as tokens, and the tags of the pieces are the tag tokens, in order -/
+theorem pexact_tags (ds de : List Char) (F : List Rng) : ∀ (qs : List Piece) (L : List Token) (off : Nat),
+    PExact ds de F qs L off → qs.length = L.length ∧ tagsOf ds de qs = tagValues L
+  | [], [], _, _ => ⟨rfl, rfl⟩
+  | [], _ :: _, _, h => by simp [PExact] at h
+  | .text _ :: _, [], _, h => by simp [PExact] at h
+  | .tag _ _ :: _, [], _, h => by simp [PExact] at h
+  | .text v :: qs, t :: L, off, h => by
+    obtain ⟨hk, _, hr⟩ := h
+    obtain ⟨i1, i2⟩ := pexact_tags ds de F qs L _ hr
+    refine ⟨by simp [i1], ?_⟩
+    simp only [tagsOf, tagValues, List.filter_cons, hk]
+    simpa [tagValues] using i2
+  | .tag b0 rest :: qs, t :: L, off, h => by
+    obtain ⟨hk, hv, hr⟩ := h
+    obtain ⟨i1, i2⟩ := pexact_tags ds de F qs L _ hr
+    refine ⟨by simp [i1], ?_⟩
+    simp only [tagsOf, tagValues, List.filter_cons, hk]
+    simp only [tagValues] at i2
+    simp [i2, hv]
+
 /-- everything one cleaning of a source without `unwrap-block` gives, when its tokens are the normalised pieces -/
 theorem clean_exact (d0 : Char) (dr : List Char) (e0 : Char) (er : List Char)
     (hd0 : wsChar d0 = false) (hel : ∀ w c, (e0 :: er) = w ++ [c] → wsChar c = false)
@@ -474,7 +502,8 @@ theorem clean_exact (d0 : Char) (dr : List Char) (e0 : Char) (er : List Char)
           (parseSource (renderAll (d0 :: dr) (e0 :: er) ps) (d0 :: dr) (e0 :: er)))) 0 ∧
       (∀ t ∈ flattenParts (pruneParts (conditionHolds cfg)
           (parseSource (renderAll (d0 :: dr) (e0 :: er) ps) (d0 :: dr) (e0 :: er))),
-        t.value ≠ [] ∧ TokShapeW (d0 :: dr) (e0 :: er) (t.kind, t.value)) := by
+        t.value ≠ [] ∧ TokShapeW (d0 :: dr) (e0 :: er) (t.kind, t.value)) ∧
+      WsOnly (mergeOverlapped ranges) (bytesOf s1) := by
   have hnr : NoReadyUnwrap cfg (parseSource (renderAll (d0 :: dr) (e0 :: er) ps) (d0 :: dr) (e0 :: er)) :=
     fun e he _ => hnu e he
   generalize hsrc : renderAll (d0 :: dr) (e0 :: er) ps = src at h hnu hnr htn ⊢
@@ -587,7 +616,7 @@ theorem clean_exact (d0 : Char) (dr : List Char) (e0 : Char) (er : List Char)
           hnu (by rw [hok'.flatEq]; exact hXe) (by rw [hfl]; simp)
         rw [hok'.flatEq] at hseam
         simp only [List.filter_nil, List.length_nil] at hseam
-        refine ⟨qs, s1, ranges, hout, by rw [← hs1]; exact hremoved', ?_, q5, ?_⟩
+        refine ⟨qs, s1, ranges, hout, by rw [← hs1]; exact hremoved', ?_, q5, ?_, by rw [← hs1]; exact hFws⟩
         · rw [← hs1]
           rw [hposfst, hposk, hMstart, hseam] at hh
           exact hh
@@ -735,7 +764,11 @@ theorem respell_exact_tn (d0 : Char) (dr : List Char) (e0 : Char) (er : List Cha
     (hnu : NoUnwrapAttr (parseSource (renderAll (d0 :: dr) (e0 :: er) ps) (d0 :: dr) (e0 :: er)))
     (h : clean (renderAll (d0 :: dr) (e0 :: er) ps) (d0 :: dr) (e0 :: er) cfg = .ok out)
     (h' : clean (renderAll (d0' :: dr') (e0' :: er') ps) (d0' :: dr') (e0' :: er') cfg = .ok out') :
-    ∃ qs, out = renderAll (d0 :: dr) (e0 :: er) qs ∧ out' = renderAll (d0' :: dr') (e0' :: er') qs := by
+    ∃ qs F F', out = renderAll (d0 :: dr) (e0 :: er) qs ∧ out' = renderAll (d0' :: dr') (e0' :: er') qs ∧
+      PExact (d0 :: dr) (e0 :: er) F qs (survivors (renderAll (d0 :: dr) (e0 :: er) ps) (d0 :: dr) (e0 :: er) cfg) 0 ∧
+      WsOnly F (toksBytes (survivors (renderAll (d0 :: dr) (e0 :: er) ps) (d0 :: dr) (e0 :: er) cfg)) ∧
+      PExact (d0' :: dr') (e0' :: er') F' qs (survivors (renderAll (d0' :: dr') (e0' :: er') ps) (d0' :: dr') (e0' :: er') cfg) 0 ∧
+      WsOnly F' (toksBytes (survivors (renderAll (d0' :: dr') (e0' :: er') ps) (d0' :: dr') (e0' :: er') cfg)) := by
   have hT := tokXs_of_tnorm (d0 :: dr) (e0 :: er) (d0' :: dr') (e0' :: er') ps [] _ _ hstrip htn htn'
   have hG := parse_x (d0 :: dr) (e0 :: er) (d0' :: dr') (e0' :: er') (fun _ _ => True) (by simp) (by simp) (by simp) (by simp) _ _ hT
   have hnu' : NoUnwrapAttr (parseSource (renderAll (d0' :: dr') (e0' :: er') ps) (d0' :: dr') (e0' :: er')) := by
@@ -748,9 +781,10 @@ theorem respell_exact_tn (d0 : Char) (dr : List Char) (e0 : Char) (er : List Cha
     have := hnu e1 he1
     rw [hee] at this
     exact this
-  obtain ⟨qs, s1, ranges, o1, k1, hu1, x1, f1⟩ := clean_exact d0 dr e0 er hd0 hel ps htn cfg out hnu h
-  obtain ⟨qs', s1', ranges', o2, k2, hu2, x2, f2⟩ := clean_exact d0' dr' e0' er' hd0' hel' ps htn' cfg out' hnu' h'
-  unfold parseSource at hu1 hu2 k1 k2 x1 x2 f1 f2
+  obtain ⟨qs, s1, ranges, o1, k1, hu1, x1, f1, w1⟩ := clean_exact d0 dr e0 er hd0 hel ps htn cfg out hnu h
+  obtain ⟨qs', s1', ranges', o2, k2, hu2, x2, f2, w2⟩ := clean_exact d0' dr' e0' er' hd0' hel' ps htn' cfg out' hnu' h'
+  unfold survivors
+  unfold parseSource at hu1 hu2 k1 k2 x1 x2 f1 f2 ⊢
   have hx := flatten_x _ _ _ _ _ _ _ (prune_x _ _ _ _ _ (conditionHolds cfg) _ _ hG)
   generalize hL : flattenParts (pruneParts (conditionHolds cfg)
     (parse (d0 :: dr) (e0 :: er) (tokenize (renderAll (d0 :: dr) (e0 :: er) ps) (d0 :: dr) (e0 :: er)))) = L at *
@@ -772,7 +806,9 @@ theorem respell_exact_tn (d0 : Char) (dr : List Char) (e0 : Char) (er : List Cha
   have heq := pexact_eq (d0 :: dr) (e0 :: er) (d0' :: dr') (e0' :: er') L L' hf hx _ _ hF L.length 0 qs qs' rfl
     (Nat.zero_le _) (by simpa [bnd_zero] using x1) (by simpa [bnd_zero] using x2)
   subst heq
-  exact ⟨qs, o1, o2⟩
+  rw [k1] at w1
+  rw [k2] at w2
+  exact ⟨qs, _, _, o1, o2, x1, w1, x2, w2⟩
 
 /-- C18 exactly, for documents without `unwrap-block`: one piece list under two delimiter pairs is cleaned to one
     piece list under the respective pair -/
@@ -786,7 +822,11 @@ theorem respell_exact (d0 : Char) (dr : List Char) (e0 : Char) (er : List Char)
     (hnu : NoUnwrapAttr (parseSource (renderAll (d0 :: dr) (e0 :: er) ps) (d0 :: dr) (e0 :: er)))
     (h : clean (renderAll (d0 :: dr) (e0 :: er) ps) (d0 :: dr) (e0 :: er) cfg = .ok out)
     (h' : clean (renderAll (d0' :: dr') (e0' :: er') ps) (d0' :: dr') (e0' :: er') cfg = .ok out') :
-    ∃ qs, out = renderAll (d0 :: dr) (e0 :: er) qs ∧ out' = renderAll (d0' :: dr') (e0' :: er') qs :=
+    ∃ qs F F', out = renderAll (d0 :: dr) (e0 :: er) qs ∧ out' = renderAll (d0' :: dr') (e0' :: er') qs ∧
+      PExact (d0 :: dr) (e0 :: er) F qs (survivors (renderAll (d0 :: dr) (e0 :: er) ps) (d0 :: dr) (e0 :: er) cfg) 0 ∧
+      WsOnly F (toksBytes (survivors (renderAll (d0 :: dr) (e0 :: er) ps) (d0 :: dr) (e0 :: er) cfg)) ∧
+      PExact (d0' :: dr') (e0' :: er') F' qs (survivors (renderAll (d0' :: dr') (e0' :: er') ps) (d0' :: dr') (e0' :: er') cfg) 0 ∧
+      WsOnly F' (toksBytes (survivors (renderAll (d0' :: dr') (e0' :: er') ps) (d0' :: dr') (e0' :: er') cfg)) :=
   respell_exact_tn d0 dr e0 er d0' dr' e0' er' hd0 hel hd0' hel' ps
     (fun p hp => ⟨Piece.strip_of_fits _ _ _ _ p (hfree p hp).1, Piece.strip_of_fits _ _ _ _ p (hfree p hp).2⟩)
     (tokens_tnorm d0 dr e0 er ps (fun p hp => Piece.ok_of_fits _ _ _ _ p (hfree p hp).1))
